@@ -278,8 +278,34 @@ def gen_inplace():
     return fails, rows
 
 
+def gen_consts():
+    """literal constants the models depend on, read from the imported package (never typed in by hand)"""
+    import struct
+    fails = []
+    try:
+        import importlib
+        import sys
+        for m in [k for k in sys.modules if k.startswith('pybaselines')]:
+            pass
+        from pybaselines import utils
+        mf = float(utils._MIN_FLOAT)
+        bits = struct.unpack('<Q', struct.pack('<d', mf))[0]
+        ok = True
+    except Exception as e:
+        fails.append(f'Consts: cannot read pybaselines.utils._MIN_FLOAT ({e})')
+        bits, ok = 0, False
+    lines = ['/-! GENERATED on every run by harness/pbv/translate.py from the imported package — do not edit. -/',
+             'namespace PbVerif.Gen', '',
+             '/-- bit pattern of `pybaselines.utils._MIN_FLOAT` -/',
+             f'def minFloatBits : UInt64 := {bits}',
+             f'def constsTranslated : Bool := {"true" if ok else "false"}', '', 'end PbVerif.Gen', '']
+    _write('Consts.lean', '\n'.join(lines))
+    return fails
+
+
 def regenerate():
     fails = []
+    fails += gen_consts()
     f, _ = gen_diags()
     fails += f
     f, _ = gen_inplace()
